@@ -69,7 +69,7 @@ def _headers_digest(repo):
 
 def ast_docs(repo, src, flt, hdr_digest=None):
     """All declarations of <repo>/src/<src> whose qualified name contains `flt`, as parsed JSON
-    documents.  Cached under build/astcache/<sha256(file + headers + filter + clang version)>."""
+    documents.  Cached under build/astcache/<sha256(file + headers + filter + clang version + tree location)>."""
     path = os.path.join(repo, "src", src)
     try:
         with open(path, "rb") as fh:
@@ -79,7 +79,9 @@ def ast_docs(repo, src, flt, hdr_digest=None):
     h = hashlib.sha256()
     h.update(content)
     h.update((hdr_digest or _headers_digest(repo)).encode())
-    h.update(("|%s|%s|%s" % (src, flt, clang_version())).encode())
+    # the JSON contains absolute paths of the tree it was produced from (used by `source_text`), so the tree's
+    # location is part of the key: a scratch copy with the same content must not serve /repo (or vice versa)
+    h.update(("|%s|%s|%s|%s" % (src, flt, clang_version(), os.path.abspath(repo))).encode())
     key = os.path.join(CACHE, h.hexdigest() + ".json")
     text = None
     if os.path.exists(key):
@@ -621,6 +623,14 @@ class Fn:
             if a.ty != b.ty or a.ty.kind not in ("int", "dur", "tp"):
                 fail("std::%s on %r, %r" % (name, a.ty, b.ty))
             return Val("(%s %s %s)" % (name, a.s, b.s), a.ty)   # TRUSTED: std::min/max on a total order
+        if name == "clamp" and len(args) == 3:
+            if src != "std::clamp":
+                fail("callee `%s` is not std::clamp" % src)
+            v, lo, hi = [self.expr(a) for a in args]
+            if not (v.ty == lo.ty == hi.ty) or v.ty.kind not in ("int", "dur", "tp"):
+                fail("std::clamp on %r, %r, %r" % (v.ty, lo.ty, hi.ty))
+            # TRUSTED: std::clamp(v, lo, hi) = (v < lo) ? lo : (hi < v) ? hi : v
+            return Val("(if %s < %s then %s else (if %s < %s then %s else %s))" % (v.s, lo.s, lo.s, hi.s, v.s, hi.s, v.s), v.ty)
         if name in ("min", "max") and len(args) == 0 and kind == "CXXMethodDecl":
             m = re.match(r"^std::numeric_limits<([A-Za-z0-9_: ]+)>::(min|max)$", src)
             if not m or m.group(2) != name or (m.group(1), name) not in NUM_LIMITS:
@@ -920,7 +930,8 @@ class Decision:
                     cond, th, el = sp[0], [sp[1]], [sp[2]]
             if cond is not None:
                 for p in path:
-                    if not p.startswith("neutral "):
+                    # a lock guard, or a local that is only declared (default constructed chrono value / no initialiser)
+                    if not p.startswith("neutral ") and not re.match(r"^decl \w+ = (Duration\(\))?$", p):
                         fail("statement `%s` precedes a condition" % p[:60])
                 c = as_prop(self.t.expr(cond))
                 rest = ss[i + 1:]
@@ -936,8 +947,37 @@ class Decision:
             i += 1
             if k == "ReturnStmt" or (k in STRIP and _strip(s)["kind"] == "CXXThrowExpr") or k == "CXXThrowExpr":
                 break
-        leaf = [p for p in path if not p.startswith("neutral ")]
+        leaf = normalise_leaf([p for p in path if not p.startswith("neutral ")])
         return pad + self.classify(leaf)
+
+
+def normalise_leaf(leaf):
+    """canonical effect sequence of a path, modulo spellings that cannot change its meaning:
+      * a `return;` at the end of a void function;
+      * `T x;` (default constructed, never read) followed later by `x = E`  ==  `T x = E`;
+      * std::stack's `top()/pop()/push()/emplace()` are its container's `back()/pop_back()/push_back()/emplace_back()`"""
+    leaf = list(leaf)
+    if leaf and leaf[-1] == "return ":
+        leaf = leaf[:-1]
+    out = []
+    for s in leaf:
+        m = re.match(r"^operator=\((\w+),(.*)\)$", s)
+        if m:
+            x = m.group(1)
+            idx = [i for i, o in enumerate(out) if re.match(r"^decl %s = (\w+\(\))?$" % re.escape(x), o)]
+            if idx and not any(re.search(r"\b%s\b" % re.escape(x), o) for o in out[idx[-1] + 1:]) \
+                    and not re.search(r"\b%s\b" % re.escape(x), m.group(2)):
+                del out[idx[-1]]
+                out.append("decl %s = %s" % (x, m.group(2)))
+                continue
+        out.append(s)
+    syn = [(".back()", ".top()"), (".pop_back()", ".pop()")]
+    res = []
+    for s in out:
+        for a, b in syn:
+            s = s.replace(a, b)
+        res.append(s)
+    return res
 
 
 def classify_table(table):
@@ -1001,9 +1041,12 @@ def tr_steptodos_due(repo, docs, src):
         t.file = _file_of(repo, docs, fn, src)
         t.opaque = {}
         top = [s for s in kids(body_of(fn))]
-        if not top or top[0]["kind"] != "DoStmt":
-            fail("StepTodos does not start with a do-loop")
-        dob = kids(top[0])[0]
+        if top and top[0]["kind"] == "DoStmt":
+            dob = kids(top[0])[0]
+        elif top and top[0]["kind"] == "ForStmt" and len(kids(top[0])) == 1:     # for(;;)
+            dob = kids(top[0])[0]
+        else:
+            fail("StepTodos does not start with a do-loop / for(;;)")
         ss = [s for s in kids(dob) if not _is_assert(s)]
         if len(ss) < 3:
             fail("do-body too short")
@@ -1187,14 +1230,18 @@ inductive SendChoice where
 """
 
 
-def translate(repo):
-    """[(name, ok, lean text or reason)] for the current source tree"""
+def translate(repo, stage2=None):
+    """[(name, ok, lean text or reason)] for the current source tree; when `stage2` is a list, the
+    results of the effectful functions (tools/cxx2lean_eff.py) are appended to it"""
     specs = SPECS()
     try:
         hd = _headers_digest(repo)
     except OSError:
         hd = "?"
     jobs = sorted({(s[2], s[3]) for s in specs})
+    if stage2 is not None:
+        import cxx2lean_eff
+        jobs = sorted(set(jobs) | set(cxx2lean_eff.jobs()))
 
     def fetch(j):
         try:
@@ -1226,12 +1273,15 @@ def translate(repo):
             out.append((name, False, str(e)))
         except (KeyError, IndexError, TypeError, ValueError) as e:
             out.append((name, False, "unexpected AST shape (%s: %s)" % (type(e).__name__, e)))
+    if stage2 is not None:
+        import cxx2lean_eff
+        stage2.extend(cxx2lean_eff.translate(repo, [n for n, ok, _ in out if ok], lambda src, flt: asts[(src, flt)]))
     return out
 
 
-def render(repo):
-    parts = [HEADER]
-    for name, ok, text in translate(repo):
+def _render(header, results):
+    parts = [header]
+    for name, ok, text in results:
         if ok:
             parts.append(text)
         else:
@@ -1240,19 +1290,71 @@ def render(repo):
     return "\n".join(parts)
 
 
-def write(repo, lean_dir):
-    """regenerate Generated/Funcs.lean; written only when the content changed.  Returns the list of
-    untranslatable function names."""
-    txt = render(repo)
-    path = os.path.join(lean_dir, "SockModel", "Generated", "Funcs.lean")
+def render(repo):
+    return _render(HEADER, translate(repo))
+
+
+def render_both(repo):
+    """(text of Generated/Funcs.lean, text of Generated/Loops.lean)"""
+    import cxx2lean_eff
+    s2 = []
+    s1 = translate(repo, s2)
+    return _render(HEADER, s1), _render(LOOPS_HEADER, s2)
+
+
+def _write_if_changed(path, txt):
     os.makedirs(os.path.dirname(path), exist_ok=True)
     old = open(path).read() if os.path.exists(path) else None
     if old != txt:
         with open(path, "w") as f:
             f.write(txt)
-    return re.findall(r"^-- UNTRANSLATABLE (\S+):", txt, re.M)
+
+
+def write(repo, lean_dir):
+    """regenerate Generated/Funcs.lean (stage 1: leaf functions) and Generated/Loops.lean (stage 2: effectful
+    functions and loops); written only when the content changed.  Returns the list of untranslatable function names."""
+    t1, t2 = render_both(repo)
+    _write_if_changed(os.path.join(lean_dir, "SockModel", "Generated", "Funcs.lean"), t1)
+    _write_if_changed(os.path.join(lean_dir, "SockModel", "Generated", "Loops.lean"), t2)
+    return re.findall(r"^-- UNTRANSLATABLE (\S+):", t1 + t2, re.M)
+
+
+LOOPS_HEADER = """/- GENERATED by tools/cxx2lean.py + tools/cxx2lean_eff.py from the clang JSON AST of /repo/src on every run - do not edit.
+
+Stage 2 of the source-derived tie: the library's small EFFECTFUL functions and loops, in an explicit
+effect style.  Prelude (hand-written, lean/SockModel/Basic/GenEffects.lean): `M ω α := ω → Res α × ω`
+(`Res`: `ok v` | `thrown ⟨class, code⟩` | `halted`), `World ω` with one field per call that leaves the
+library.  Imported by Props/C16, C01 (tie theorems at their end) only.
+
+How the text below is obtained (TRUSTED part of the translator, in addition to Generated/Funcs.lean):
+ * `DoPoll(pfds, count, ms)` is `W.doPoll ms`, `Interrupted()` is `W.interrupted`, `Clock::now()` is
+   `W.clockNow`, `::send(fd, p, n, flags)` is `W.send off n` (off = offset of p from the `data`
+   parameter), `::recv(fd, p, n, flags)` is `W.recv n`, `SocketError()` is `W.socketError`; handles and
+   buffers that only travel to these calls (`fd`, `pfds`, `count`, `events`, `flags`) are dropped;
+ * sequencing is `M.bind` in C++ evaluation order (`&&` / `||` short-circuit; an expression with two
+   effectful operands in unspecified order is rejected); `throw X(..)` is `M.throw ⟨.X, code⟩` (message
+   dropped; `code` = the `std::error_code` argument of `system_error`, else 0); there is no `catch`;
+ * a call of another translated function is a call of its generated definition (same `W`, same `fuel`);
+   `ToMsec`, `DeadlineLimited_*` are the stage-1 definitions of Generated/Funcs.lean;
+ * locals are `let`s, an assignment introduces a new version of the name; a `DeadlineLimited` object
+   is its two fields (constructor = `Clocked_ctor_now` then `DeadlineLimited_deadline`; `Tick()` =
+   `Clocked_Tick`, both read from the AST of wait.h); a `std::string_view(p, n)` is (offset, length),
+   `remove_prefix(k)` adds k to the offset and subtracts it from the length (precondition k <= size());
+ * `do B while(c)`, `for(;;) B`, `while(c) B` become `<F>_loop<k>`: structural recursion on a fuel
+   counter `n` (`0 => M.halt`), arguments = the locals the loop assigns, `break` / the false condition
+   continue with the statements after the loop (inlined), `return` ends the function; the function
+   starts the loop with `n := fuel`.  `M.halt` (out of fuel, or the world stopped answering) is not a
+   behaviour of the C++ code: the tie theorems give the fuel that suffices.
+Anything outside the subset yields `-- UNTRANSLATABLE <name>: <reason>` and no definition. -/
+import SockModel.Basic.GenEffects
+import SockModel.Generated.Funcs
+set_option linter.unusedVariables false
+namespace SockModel.Gen
+"""
 
 
 if __name__ == "__main__":
     import sys
-    print(render(sys.argv[1] if len(sys.argv) > 1 else os.environ.get("VERIF_REPO", "/repo")))
+    _r = sys.argv[1] if len(sys.argv) > 1 and not sys.argv[1].startswith("-") else os.environ.get("VERIF_REPO", "/repo")
+    _t1, _t2 = render_both(_r)
+    print(_t2 if "--loops" in sys.argv else _t1)
